@@ -1167,6 +1167,55 @@ def run_block_cwd(key):
     return acc.done({"case": key, "configs": acc.res["n"]})
 
 
+def locale_child(path):
+    """Runs in a FRESH interpreter whose locale encoding is not UTF-8."""
+    import locale
+
+    p = px()
+    try:
+        cfg = p.io.parse_config(path)
+        return {"status": "ok", "name": cfg.get("name"), "grains": cfg["parameters"].get("number_of_grains"), "encoding": locale.getpreferredencoding(False)}
+    except p.ConfigError as e:
+        return {"status": "ConfigError", "msg": str(e)[:200], "encoding": locale.getpreferredencoding(False)}
+    except Exception as e:
+        return {"status": type(e).__name__, "msg": str(e)[:200], "encoding": locale.getpreferredencoding(False)}
+
+
+def run_block_locale(key):
+    """Environment answer: the process locale encoding is not UTF-8 (LC_ALL=C, no UTF-8
+    mode, no locale coercion).  A configuration file is UTF-8 by the TOML standard: the same
+    file, with non-ASCII text in a comment and in `name`, parses to the same values
+    (seed C19h: the file decoded with the locale's encoding)."""
+    import subprocess
+    import sys
+
+    acc = Acc(key)
+    fs = files()
+    model = build({"mode": key["mode"], "ph": "ol_en", "fab": "A", "omit": []})
+    model["name"] = "gr\u00f6\u00dfe_\u0394 \U0001d700".encode().decode("unicode_escape")
+    text = "# \u03b5 = \u03b3/2 \u2014 strain\n".encode().decode("unicode_escape") + toml_text(model)
+    path = os.path.join(fs["wd"], "locale_case.toml")
+    with open(path, "w", encoding="utf-8") as f:
+        f.write(text)
+    env = dict(os.environ, LC_ALL="C", LANG="C", PYTHONUTF8="0", PYTHONCOERCECLOCALE="0")
+    out = subprocess.run([sys.executable, "-m", "props.c19", path], capture_output=True, text=True, env=env, cwd=os.path.dirname(os.path.dirname(os.path.abspath(__file__))), encoding="utf-8", errors="replace")
+    got = None
+    for line in out.stdout.splitlines():
+        if line.startswith("RESULT "):
+            got = json.loads(line[7:])
+    if got is None:
+        raise RuntimeError("locale child failed: " + out.stderr[-1500:])
+    acc.res["n"] += 1
+    acc.res["trans"] += 1
+    acc.clause("parses")
+    want_grains = model["parameters"]["number_of_grains"]
+    if got["status"] != "ok" or got.get("name") != model["name"] or got.get("grains") != want_grains:
+        acc.viol("parses", {"part": "config", "block": "locale", "mode": key["mode"], "form": "raises_" + got["status"] if got["status"] != "ok" else "values_differ_under_non_utf8_locale"}, {"child": got, "expected_name": model["name"]})
+    acc.res["nontrivial"].append(digest(key))
+    acc.res["notes"]["locale_child_encoding:" + str(got.get("encoding"))] = 1
+    return acc.done({"case": key, "child": got})
+
+
 def run_block_ordinal(key):
     acc = Acc(key)
     allout = ["output." + k for k in OUT_KEYS]
@@ -1482,6 +1531,9 @@ def gen_cases(tier, seed):
     for mode in MODES:
         for cwd in ("rel", "rel_sub"):
             keys.append({"part": "config", "block": "cwd", "mode": mode, "cwd": cwd})
+    # a process whose locale encoding is not UTF-8
+    for mode in MODES:
+        keys.append({"part": "config", "block": "locale", "mode": mode})
     # phases declared by ordinal
     for mode in MODES:
         for ph in ORD_PHASES:
@@ -1531,6 +1583,8 @@ def run_case(key):
         return run_block_edge(key)
     if key["block"] == "inputs":
         return run_block_inputs(key)
+    if key["block"] == "locale":
+        return run_block_locale(key)
     if key["block"] == "ordinal":
         return run_block_ordinal(key)
     if key["block"] == "cwd":
@@ -1540,3 +1594,15 @@ def run_case(key):
     if key["block"] == "prm":
         return run_block_prm(key)
     raise KeyError(key)
+
+
+if __name__ == "__main__":
+    import sys
+
+    from mc import alph
+    from mc.runner import quiet_pydrex
+
+    alph.configure(int(os.environ.get("VERIF_SEED", "0")), os.environ.get("VERIF_TIER", "quick"))
+    px()
+    quiet_pydrex()
+    print("RESULT " + json.dumps(locale_child(sys.argv[1])))
